@@ -17,9 +17,9 @@ RULE = ("document pairs of every type x type-selection grid {none, --X-TYPE, --X
         "suggests, or an alias pair is compared, and the documents differ; distinct = distinct argv + documents")
 ASSUMPTIONS = ["the library composition mirrors the documented public API; it is validated byte-for-byte against main() on the plain cases",
                "stderr is not compared"]
-MINIMUMS = {"quick": {"cli_vs_library": 3000, "alias_pairs": 1500, "explicit_type_overrides_name:first": 300,
+MINIMUMS = {"quick": {"cli_on_a_terminal": 600, "cli_vs_library": 3000, "alias_pairs": 1500, "explicit_type_overrides_name:first": 300,
                       "explicit_type_overrides_name:second": 300},
-            "thorough": {"cli_vs_library": 60000, "alias_pairs": 30000, "explicit_type_overrides_name:first": 6000,
+            "thorough": {"cli_on_a_terminal": 12000, "cli_vs_library": 60000, "alias_pairs": 30000, "explicit_type_overrides_name:first": 6000,
                          "explicit_type_overrides_name:second": 6000}}
 SELECT = ["none", "flag", "mime"]
 
@@ -83,7 +83,7 @@ def build_opts(case):
     return gen.build_options(case.get("ds", "auto"), case.get("le", "on"))
 
 
-def library(case, pa, pb, mode, fmt=None, join=(False, False)):
+def library(case, pa, pb, mode, fmt=None, join=(False, False), color=None):
     """The same result composed from the public library API."""
     import graphtage
     import graphtage.printer as gp
@@ -93,7 +93,7 @@ def library(case, pa, pb, mode, fmt=None, join=(False, False)):
     fa = graphtage.get_filetype(pa, ta_mime)
     fb = graphtage.get_filetype(pb, tb_mime)
     out = monitors.KeepStringIO()
-    printer = gp.Printer(out, ansi_color=None, quiet=True, options={"join_lists": join[0], "join_dict_items": join[1]})
+    printer = gp.Printer(out, ansi_color=color, quiet=True, options={"join_lists": join[0], "join_dict_items": join[1]})
     opts = build_opts(case)
     had = False
     try:
@@ -149,14 +149,17 @@ def check(case, ctx):
             mode = case["mode"]
             join = (True, True) if mode == ["-j"] else (False, False)
             # every other case takes the default user path: status output on, stdout/stderr with real file descriptors
-            status_on = core.case_hash([case["sa"], case["sb"], case["ea"], case["eb"], repr(case["a"])]) % 2 == 0
+            # a third of the cases the way a user at a terminal runs it: stdout/stderr are (pseudo-)terminals, so colour is on by
+            # default; the library side then prints with ansi_color=True
+            h = core.case_hash([case["sa"], case["sb"], case["ea"], case["eb"], repr(case["a"])]) % 3
+            status_on, tty = h != 1, h == 2
             argv = ([] if status_on else ["--no-status"]) + sel_args("from", case["sa"], case["ta"]) \
                 + sel_args("to", case["sb"], case["tb"]) + mode + cli_opts(case) + [pa, pb]
-            res = monitors.run_main(argv, real_files=status_on)
+            res = monitors.run_main(argv, real_files=status_on, tty=tty)
             if ctx is not None and status_on:
-                ctx.count("cli_with_status_output_and_real_fds")
+                ctx.count("cli_on_a_terminal" if tty else "cli_with_status_output_and_real_fds")
             try:
-                lib = library(case, pa, pb, mode if mode != ["-j"] else [], join=join)
+                lib = library(case, pa, pb, mode if mode != ["-j"] else [], join=join, color=True if tty else None)
                 lib_exc = None
             except Exception as ex:  # noqa
                 lib, lib_exc = None, ex
